@@ -37,6 +37,17 @@ def names_case(draw):
     if draw(st.integers(0, 3)) == 0 and sel['targets'] != '*':
         # duplicate a target (same name twice)
         sel['targets'] = list(sel['targets']) + [draw(st.sampled_from(sel['targets']))]
+    if len(sel['targets']) >= 2 and draw(st.integers(0, 3)) == 0:
+        # two different expressions under one output name (the name is then not used by GROUP BY / ORDER BY)
+        used = {k[1] for k in (sel['group_by'] or []) + [k for k, _ in (sel['order_by'] or [])] if isinstance(k, list) and k[0] == 'col'}
+        i, j = draw(st.permutations(range(len(sel['targets']))))[:2]
+        (ei, ai), (ej, aj) = sel['targets'][i], sel['targets'][j]
+        name = ai if ai is not None else (ei[1] if ei[0] == 'col' else None)
+        old = aj if aj is not None else (ej[1] if ej[0] == 'col' else None)
+        if name is not None and name not in used and old not in used and ei != ej:
+            tl = list(sel['targets'])
+            tl[j] = (ej, name)
+            sel['targets'] = tl
     style = bql.Style(gen.Rnd(draw(st.randoms(use_true_random=False))), parens=draw(st.sampled_from([0.0, 0.05, 0.15])),
                       case=draw(st.booleans()), space=True, comments=draw(st.booleans()), uplus=False, numforms=False)
     ttexts = []
@@ -204,12 +215,48 @@ def prop_ledger_star(sh, case):
     return fails
 
 
-PARTS = {'names': prop_names, 'wildcard': prop_wildcard, 'ledgerstar': prop_ledger_star}
+ATTR_TARGETS = [
+    ('postings', ['position.units', 'position.units.number', 'position.cost.date', 'weight.currency', 'entry.narration', 'price.number',
+                  'position . units . currency', "meta['ref']", "entry.meta['when']", 'entry.date']),
+    ('accounts', ['open.date', 'close.date', 'open.meta', 'open.account', 'open.currencies']),
+    ('prices', ['amount.number', 'amount.currency']),
+    ('balances', ['amount.number', 'discrepancy.number']),
+]
+
+
+def prop_attr_names(sh, case):
+    """Targets that read attributes / subscripts of structured columns are named by their source text."""
+    fails = []
+    conn = ledgers.connect(ledgers.SAMPLE)
+    for table, exprs in ATTR_TARGETS:
+        for combo in ([e] for e in exprs):
+            pass
+        q = f"SELECT {', '.join(exprs)} FROM #{table}"
+        r = harness.engine(conn, q)
+        if r[0] != 'ok':
+            fails.append((exc_sig(r[1], 'attrnames:raises'), f'{q!r}: {r[1]!r}'))
+            continue
+        names = [d.name for d in r[1]]
+        if names != exprs:
+            fails.append(('attrnames:not-source-text', f'{q!r}: named {names}'))
+        if any(len(row) != len(exprs) for row in r[2]):
+            fails.append(('attrnames:row-length', q))
+        # and as columns of a subquery they stay distinct (addressable through *)
+        r2 = harness.engine(conn, f'SELECT * FROM ({q})')
+        if r2[0] == 'ok' and ([d.name for d in r2[1]] != names or r2[2] != r[2]):
+            fails.append(('attrnames:subquery-star', f'{q!r}: {[d.name for d in r2[1]]}'))
+        sh.record(q, True, {'text': q, 'names': names})
+    return fails
+
+
+PARTS = {'names': prop_names, 'wildcard': prop_wildcard, 'ledgerstar': prop_ledger_star, 'attrnames': prop_attr_names}
 
 
 def run(sh):
     if sh.index == 0:
         for sig, detail in prop_ledger_star(sh, None):
             sh.fail(sig, detail, None, 'ledgerstar')
+        for sig, detail in prop_attr_names(sh, None):
+            sh.fail(sig, detail, None, 'attrnames')
     sh.search('names', names_case(), prop_names, quick=1200, thorough=40000)
     sh.search('wildcard', wildcard_case(), prop_wildcard, quick=600, thorough=20000)
